@@ -200,7 +200,8 @@ func (server *SugarDB) getValues(ctx context.Context, keys []string) map[string]
 				}
 			} else if server.isInCluster() && server.raft.IsRaftLeader() {
 				// If we're in a raft cluster, and we're the leader, send command to delete the key in the cluster.
-				err := server.raftApplyDeleteKey(ctx, key)
+				// The store lock is held here, so the deletion is only enqueued.
+				err := server.raftEnqueueDeleteKey(ctx, key)
 				if err != nil {
 					log.Printf("keyExists: %+v\n", err)
 				}
@@ -742,7 +743,8 @@ func (server *SugarDB) evictKeysWithExpiredTTL(ctx context.Context) error {
 				return fmt.Errorf("evictKeysWithExpiredTTL -> standalone delete: %+v", err)
 			}
 		} else if server.isInCluster() && server.raft.IsRaftLeader() {
-			if err := server.raftApplyDeleteKey(ctx, k); err != nil {
+			// The store lock is held here, so the deletion is only enqueued.
+			if err := server.raftEnqueueDeleteKey(ctx, k); err != nil {
 				server.storeLock.Unlock()
 				return fmt.Errorf("evictKeysWithExpiredTTL -> cluster delete: %+v", err)
 			}
@@ -758,6 +760,12 @@ func (server *SugarDB) evictKeysWithExpiredTTL(ctx context.Context) error {
 	}
 
 	log.Printf("%d keys sampled, %d keys deleted\n", sampleSize, deletedCount)
+
+	// In a cluster the deletions above are still on their way through the raft log:
+	// sampling again right now would find the same keys. The next tick does it.
+	if server.isInCluster() {
+		return nil
+	}
 
 	// If the deleted percentage is over 20% of the sample size, execute the function again immediately.
 	if (deletedCount/sampleSize)*100 >= thresholdPercentage {
